@@ -24,6 +24,7 @@ fn stack_walker(g: &mut Gen, model: &Model, tree: &[Node], has_links: bool, stat
         layers: vec![],
         taps: g.rng.chance(1, 2),
         erased: false,
+        form: g.rng.below(8) as u8,
     };
     // a third of the stacks are built with type erasure between the layers (H3); a third of those
     // are deeper than the statically composed type allows (5 to 10 layers plus the observer)
